@@ -394,7 +394,7 @@ pub fn check(c: &Case, o: &Seen) -> Vec<(String, String)> {
     for p in &o.panics {
         v.push(("panic".into(), format!("panic: {p}")));
     }
-    let secure = matches!(c.scheme, "https" | "wss");
+    let secure = c.scheme.eq_ignore_ascii_case("https") || c.scheme.eq_ignore_ascii_case("wss");
     let needle: &[u8] = b"secret-marker-7f3a";
     let contains_marker = o.raw.windows(needle.len()).any(|w| w == needle);
     let got_stream = matches!(&o.client, Some(Ok(_)));
@@ -466,7 +466,8 @@ pub fn check(c: &Case, o: &Seen) -> Vec<(String, String)> {
 
 pub fn cases(thorough: bool, flight_len: usize, flight_len_ip: usize) -> Vec<Case> {
     let mut v = vec![];
-    let schemes = ["http", "https", "ws", "wss", "ftp"];
+    // URI schemes are case-insensitive (RFC 3986 §3.1): the upper- and mixed-case spellings are the same schemes
+    let schemes = ["http", "https", "ws", "wss", "ftp", "HTTPS", "WSS", "Wss", "HTTP"];
     let hosts = ["example.com", "EXAMPLE.com", "localhost", "127.0.0.1", "[::1]", "a_b.test", "exa$mple.com", "-", "other.test", "a..b", "user:pw@example.com", "u@[::1]"];
     let ports = [None, Some(443u16), Some(8443)];
     for scheme in schemes {
